@@ -13,6 +13,7 @@ import Proofs.XdrDec
 import Proofs.XdrSize
 import Proofs.EndToEndText
 import Proofs.XdrStream
+import Proofs.XdrSrc
 namespace Pydap.C01
 open Pydap Pydap.Xdr
 
@@ -143,6 +144,85 @@ theorem C01_sequence_streamed (dds : Bytes) (t : Tmpl) (d : Data) (cs : List Byt
   rw [hfirst]
   simp [C01_roundtrip t d h, mapE, Stream.fstOf]
 
+/-! ### the source representation does not reach the client
+
+`Xdr.NpArr` / `Xdr.encArr` / `Xdr.Src` / `Xdr.encSrc` (PydapModel/XdrSrc.lean): the served arrays as numpy holds them
+(dtype char, byte order, strides, offset, memory; `str` or `bytes` items) and the encoder's dispatch on that; see the
+section of the same name in Props/C05.lean for the domain (excluded: 8-byte integers beyond 32 bits, text outside
+ASCII, dtypes without a DAP2 type — `C05_rep_wide_wraps`, `C05_rep_text_outside_ascii`, `C05_rep_unsupported_dtype`). -/
+
+/-- **what the client reads does not depend on how the server holds it**: two arrays holding the same data of the
+    same DAP2 type in any two representations are answered with the same bytes, and the client decodes exactly
+    the data held from them (type and shape are those of the declaration it decodes with) -/
+theorem C01_representation_independent (a b : NpArr) (ty : Ty) (sh : List Nat) (d : Data)
+    (ha : Holds a ty sh d) (hb : Holds b ty sh d) (hwf : WF (.base ty sh) d = true) :
+    ∃ bs, encArr a = .ok bs ∧ encArr b = .ok bs ∧ decImpl (.base ty sh) bs = .ok (d, []) := by
+  obtain ⟨hty, hsh, hd⟩ := ha
+  obtain ⟨hty', hsh', hd'⟩ := hb
+  subst hsh
+  refine ⟨XdrSpec.enc (.base ty a.shape) d, encArr_eq_spec a ty d hty hd hwf, ?_, ?_⟩
+  · have := encArr_eq_spec b ty d hty' hd' (by rw [hsh']; exact hwf)
+    rw [hsh'] at this; exact this
+  · have := decImpl_enc (.base ty a.shape) d [] hwf
+    rwa [List.append_nil] at this
+
+/-- … for whole datasets, through the response body: a tree of structures/grids whose leaves are arrays in any
+    representation (or value-level members: sequences), viewed as `(t, d)`, is served as DDS ‖ `Data:\n` ‖ bytes from
+    which the client recovers the DDS and exactly `d` — the same for every tree with that view -/
+theorem C01_representation_independent_dataset (s s' : Src) (dds0 : Bytes) (t : Tmpl) (d : Data)
+    (hs : s.view? = some (t, d)) (hs' : s'.view? = some (t, d)) (hwf : WF t d = true)
+    (hno : ∀ i, i < dds0.length →
+      ¬ splitPattern.isPrefixOf ((dds0 ++ splitPattern ++ encImpl t d).drop i) = true) :
+    ∃ bs, encSrc s = .ok bs ∧ encSrc s' = .ok bs ∧
+      clientRead t (dds0 ++ [10] ++ dataMarker ++ bs) = some (dds0, .ok (d, [])) := by
+  refine ⟨XdrSpec.enc t d, encSrc_eq s t d hs hwf, encSrc_eq s' t d hs' hwf, ?_⟩
+  have := C01_end_to_end dds0 t d hwf hno
+  rw [body, encImpl_eq t d hwf] at this
+  exact this
+
+/-- … and for sequences: a lazy source whose records hold the rows `vss` as cells of any forms (numpy scalar / 0-d
+    array of any dtype char of the column's type, Python int/float/bool, `str`, `bytes`), or a structured array read
+    record by record (`recordsOf`), is answered with bytes from which the client decodes exactly those rows; two such
+    sources with the same bytes -/
+theorem C01_representation_independent_sequence (tys : List Ty) (rows rows' : List (List (Bool × Cell)))
+    (vss : List (List Val)) (h : rowsVals? rows = some vss) (h' : rowsVals? rows' = some vss)
+    (hok : ∀ r ∈ rows, ∀ c ∈ r, c.2.ok = true) (hok' : ∀ r ∈ rows', ∀ c ∈ r, c.2.ok = true)
+    (ht : ∀ r ∈ rows, r.map (·.2.ty?) = tys.map some) (ht' : ∀ r ∈ rows', r.map (·.2.ty?) = tys.map some)
+    (hwf : WF (.seq (tys.map fun ty => .base ty [])) (.rows (vss.map fun vs => .tuple (vs.map Data.scalar))) = true) :
+    ∃ bs, encRowsCells tys rows = .ok bs ∧ encRowsCells tys rows' = .ok bs ∧
+      decImpl (.seq (tys.map fun ty => .base ty [])) bs
+        = .ok (.rows (vss.map fun vs => .tuple (vs.map Data.scalar)), []) := by
+  have hw := hwf
+  simp only [WF, Bool.and_eq_true] at hw
+  refine ⟨XdrSpec.enc (.seq (tys.map fun ty => .base ty [])) (.rows (vss.map fun vs => .tuple (vs.map Data.scalar))),
+    ?_, ?_, ?_⟩
+  · rw [encRowsCells_eq tys rows vss h hok ht hw.1.2 hw.2]; simp [XdrSpec.enc]
+  · rw [encRowsCells_eq tys rows' vss h' hok' ht' hw.1.2 hw.2]; simp [XdrSpec.enc]
+  · have := decImpl_enc _ _ [] hwf
+    rwa [List.append_nil] at this
+
+/-! ### why the open finding `C01.lazy_type_peek` is not a local repair
+
+A lazy source (`IterData`) carries no declaration: `IterData.dtype` reads the column types off the first record.
+With no record there is nothing to read them from — the empty source is a value of EVERY sequence declaration, so
+no function of the records alone returns the declaration the publisher meant.  A repair therefore needs types that
+are declared somewhere (a new argument of `IterData`, carried through `__copy__`/`__getitem__`/`copy_template`),
+not a fallback inside `dtype`; see design_notes/C01.md. -/
+
+/-- the empty source is a well-formed value of EVERY admissible sequence declaration, and it is sent as the same
+    four bytes under every one of them: neither the records nor the data bytes determine the column types -/
+theorem C01_lazy_type_peek_undetermined :
+    (∀ cs, cs ≠ [] → seqCols cs = true → WF (.seq cs) (.rows []) = true) ∧
+    (∀ cs, encImpl (.seq cs) (.rows []) = Gen.END_OF_SEQUENCE) := by
+  refine ⟨?_, ?_⟩
+  · intro cs hne hc
+    cases cs with
+    | nil => exact absurd rfl hne
+    | cons c cs => simp [WF, WFrows, hc]
+  · intro cs
+    simp only [encImpl]
+    split <;> simp [encRowsFlat, encRowsNested]
+
 /-! ### non-vacuity -/
 
 def exT : Tmpl := .struct [.base .uint16 [2, 2], .struct [.base .byte [], .base .string []],
@@ -174,5 +254,29 @@ def exQD : Data := .rows [.tuple [.scalar (.num (-3)), .scalar (.str [])]]
 example : seqProxy exQ [[32, 10, 68, 97], [116, 97, 58, 10, 0x5a, 0, 0], [0, 0xff, 0xff, 0xff, 0xfd, 0, 0, 0], [],
     [0, 0xa5, 0, 0, 0]] = .ok exQD :=
   C01_sequence_streamed [32, 10] exQ exQD _ (by decide) (by decide) (by decide)
+/-- the same Int16 values as little-endian int16 in C order and as int8 read backwards (negative stride) -/
+def exRepA : NpArr := storeC .h false [3] [1, -2, 3]
+def exRepB : NpArr := ⟨.b, false, 0, [3], [-1], 2, [3, 0xFE, 1]⟩
+example : ∃ bs, encArr exRepA = .ok bs ∧ encArr exRepB = .ok bs ∧
+    decImpl (.base .int16 [3]) bs = .ok (.array [.num 1, .num (-2), .num 3], []) :=
+  C01_representation_independent exRepA exRepB .int16 [3] _ ⟨by decide, by decide, by rfl⟩
+    ⟨by decide, by decide, by rfl⟩ (by decide)
+/-- a record (Int16, String) as (int8 scalar, `bytes`) and as (big-endian int16 0-d array, `str`) -/
+example : ∃ bs, encRowsCells [.int16, .string] [[(false, .num .b (-3)), (false, .bstr [97])]] = .ok bs ∧
+    encRowsCells [.int16, .string] [[(true, .num .h (-3)), (false, .ustr [97])]] = .ok bs ∧
+    decImpl (.seq [.base .int16 [], .base .string []]) bs
+      = .ok (.rows [.tuple [.scalar (.num (-3)), .scalar (.str [97])]], []) :=
+  C01_representation_independent_sequence [.int16, .string] _ _ [[.num (-3), .str [97]]] (by decide) (by decide)
+    (by decide) (by decide) (by decide) (by decide) (by decide)
+example : WF (.seq [.base .int32 []]) (.rows []) = true ∧ WF (.seq [.base .string [], .base .byte []]) (.rows []) = true := by
+  decide
+example : (Src.struct [.arr exRepA, .val (.base .string []) (.scalar (.str []))]).view?
+    = (Src.struct [.arr exRepB, .val (.base .string []) (.scalar (.str []))]).view? := by rfl
+example : ∃ bs, encSrc (.struct [.arr exRepA, .val (.base .string []) (.scalar (.str []))]) = .ok bs ∧
+    encSrc (.struct [.arr exRepB, .val (.base .string []) (.scalar (.str []))]) = .ok bs ∧
+    clientRead (.struct [.base .int16 [3], .base .string []]) ([32] ++ [10] ++ dataMarker ++ bs)
+      = some ([32], .ok (.tuple [.array [.num 1, .num (-2), .num 3], .scalar (.str [])], [])) :=
+  C01_representation_independent_dataset _ _ [32] _ _ (by rfl) (by rfl) (by decide) (by decide)
+
 
 end Pydap.C01
